@@ -287,7 +287,7 @@ func (v *JV) Paths() []JPath {
 }
 
 // FaultOps are the schema-fault operators (null, wrong type x4, empty, absent, duplicated, oversized, deep).
-var FaultOps = []string{"null", "number", "string", "bool", "object", "array", "empty", "absent", "duplicate", "oversized", "deep", "negative", "float"}
+var FaultOps = []string{"null", "number", "string", "bool", "object", "array", "empty", "absent", "duplicate", "oversized", "deep", "negative", "float", "nulls", "null_run"}
 
 // ApplyFault applies op at path p (in place; use on a clone). Returns false when not applicable.
 func ApplyFault(p JPath, op string) bool {
@@ -363,6 +363,23 @@ func ApplyFault(p JPath, op string) bool {
 		default:
 			return false
 		}
+	case "nulls", "null_run":
+		// runs of adjacent nulls in a list: all entries null, or the entries followed by two nulls (code that drops
+		// null entries while iterating tends to skip the neighbour of a dropped one)
+		c := cur()
+		if c.Kind != 'a' {
+			return false
+		}
+		n := JArray()
+		if op == "null_run" {
+			for _, e := range c.Elems {
+				n.Elems = append(n.Elems, e.Clone())
+			}
+			n.Elems = append(n.Elems, JNull(), JNull())
+		} else {
+			n.Elems = append(n.Elems, JNull(), JNull(), JNull())
+		}
+		set(n)
 	case "deep":
 		c := cur()
 		n := c.Clone()
